@@ -1010,7 +1010,7 @@ class BuilderSim:
         except Exception as e:  # noqa: BLE001  (IncompleteOp and friends while builders are open)
             out = type(e).__name__
         try:
-            n = sum(1 for _ in h.links()) + sum(len(h.children(x)) for x in h.nodes())
+            n = sum(1 for _ in h.links()) + sum(len(h.children(x)) for x, _ in h.nodes())
         except Exception as e:  # noqa: BLE001
             n = type(e).__name__
         self.ctx.ev("observer", "to_json/links/children", None, f"{out}:{n}")
